@@ -448,11 +448,6 @@ def freshVars (start n : Nat) : List Term := (List.range n).map fun i => Term.va
 
 /-! ## functor/3, arg/3, =../2 -/
 
-def isAtomic : Term → Bool
-  | .var _ => false
-  | .app _ _ => false
-  | _ => true
-
 def functor (t name arity : Term) : Result :=
   let args := [t, name, arity]
   match t with
